@@ -95,25 +95,51 @@ Lemma hint_more s a : rem_meta (update_size_hint s a) = rem_meta s /\ last_flush
   /\ initialized (update_size_hint s a) = initialized s.
 Proof. unfold update_size_hint. destruct (size_hint s =? 0); repeat split; reflexivity. Qed.
 
-Lemma mt_to_call_post em payload s s1 s' x' offered capn segs consumed :
-  initialized s = true -> fastcond s = false -> sstate_ s <> SFinished ->
+(* what a metadata call gives, on either path *)
+Record mcall_post (em : list N) (s s' : st) (out : list N) (segs : list seg) (consumed : list answer) : Prop := {
+  mc_oracle : oracle s = consumed ++ oracle s';
+  mc_chain : schain (last_bytes s) (last_bytes_bits s) segs (last_bytes s') (last_bytes_bits s');
+  mc_ans : ans_of segs = annotate (last_bytes s) (last_bytes_bits s) consumed;
+  mc_wire : kept segs -> wire (em ++ out) s' = wire em s ++ segs_bits segs;
+  mc_lfp : Forall (fun a => a_lfp a <= input_pos s) consumed;
+  mc_nolast : Forall notlast consumed;
+  mc_nf : sstate_ s <> SFinished /\ sstate_ s' <> SFinished;
+  mc_inv : inv s' /\ all_ok2 (oracle s') /\ Forall tclean (oracle s') /\ clean s';
+  mc_pos : input_pos s' = input_pos s;
+  mc_cfg : same_cfg s s';
+  mc_b : bstate_ok s';
+  mc_quiet : quiet s -> consumed = [] /\ quiet s'
+}.
+
+Lemma mt_to_mcall_post em payload s s1 s' x' offered capn segs consumed :
+  sstate_ s <> SFinished ->
   last_bytes s1 = last_bytes s -> last_bytes_bits s1 = last_bytes_bits s -> oracle s1 = oracle s ->
-  input_pos s1 = input_pos s -> same_cfg s s1 -> (forall e, wire e s1 = wire e s) ->
+  input_pos s1 = input_pos s -> same_cfg s s1 -> (forall e, wire e s1 = wire e s) -> (quiet s -> quiet s1) ->
   mt_post em payload s1 (io0 offered capn) s' x' segs consumed ->
-  call_post (input_pos s) em s s' (produced x') segs consumed.
+  mcall_post em s s' (produced x') segs consumed.
 Proof.
-  intros Hini Hfc Hnf E1 E2 E3 E4 E5 E6 T. destruct T as [T1 T2 T3 T4 T5 T6 T7 T8 T9 T10].
+  intros Hnf E1 E2 E3 E4 E5 E6 E7 T. destruct T as [T1 T2 T3 T4 T5 T6 T7 T8 T9 T10 T11].
   rewrite E1, E2 in T2, T3. rewrite E3 in T1. rewrite E4 in T5, T8.
   assert (Hs' : sstate_ s' <> SFinished).
   { destruct T10 as [[E _]|[[E _]|[E _]]]; rewrite E; discriminate. }
   constructor; try assumption.
   - intros K. rewrite (T4 K). cbn [produced io0]. rewrite app_nil_r, E6. reflexivity.
-  - intros Hf. contradiction.
-  - intros _. split; assumption.
-  - pose proof (same_cfg_trans _ _ _ E5 T9) as Cf. split; [destruct Cf as [C1 _]; rewrite C1; exact Hini|].
-    rewrite (same_cfg_fastcond _ _ Cf). exact Hfc.
+  - split; assumption.
+  - exact (same_cfg_trans _ _ _ E5 T9).
   - destruct T10 as [[A B]|[[A (B & C & D & E)]|[A (B & C)]]]; split; intros H; rewrite A in H; try discriminate H; try assumption.
     repeat split; assumption.
+  - intros Hq. exact (T11 (E7 Hq)).
+Qed.
+
+Lemma mcall_to_call_post em s s' out segs consumed :
+  initialized s = true -> fastcond s = false -> mcall_post em s s' out segs consumed ->
+  call_post (input_pos s) em s s' out segs consumed.
+Proof.
+  intros Hini Hfc [T1 T2 T3 T4 T5 T6 [T7a T7b] T8 T9 T10 T11 T12].
+  constructor; try assumption.
+  - intros Hf. contradiction.
+  - intros _. split; assumption.
+  - split; [destruct T10 as [C1 _]; rewrite C1; exact Hini|]. rewrite (same_cfg_fastcond _ _ T10). exact Hfc.
 Qed.
 
 (* process_metadata after the guards, with the fuel abstract *)
@@ -139,8 +165,6 @@ Qed.
 
 Section MetaCall.
   Variables (s : st) (payload : list N) (offered capn : N) (s' : st) (x' : io) (em : list N) (fuel : nat).
-  Hypothesis Hini : initialized s = true.
-  Hypothesis Hfc : fastcond s = false.
   Hypothesis Hi : inv s.
   Hypothesis Hok : all_ok2 (oracle s).
   Hypothesis Htc : Forall tclean (oracle s).
@@ -154,7 +178,7 @@ Section MetaCall.
   Let sh := update_size_hint s 0.
 
   Lemma meta_call_new : sstate_ s = SProcessing ->
-    exists segs consumed, call_post (input_pos s) em s s' (produced x') segs consumed.
+    exists segs consumed, mcall_post em s s' (produced x') segs consumed.
   Proof.
     intros Est. destruct (hint_fields s 0) as (V1 & V2 & V3 & V4). destruct (update_size_hint_oracle s 0) as [U1 U2].
     fold sh in V1, V2, V3, V4, U1, U2.
@@ -175,12 +199,14 @@ Section MetaCall.
     { eapply same_cfg_trans; [apply (same_cfg_hint s 0)|]. unfold same_cfg, s1. fs. repeat split; reflexivity. }
     assert (Ew : forall e, wire e s1 = wire e s).
     { intros e. unfold s1. change (wire e (upd_core sh (initialized sh) SMetaHead (w32 offered))) with (wire e sh). apply wire_size_hint. }
-    apply (mt_to_call_post em payload s s1 s' x' offered capn segs consumed Hini Hfc); try assumption.
+    assert (Eq : quiet s -> quiet s1).
+    { destruct (hint_more s 0) as (_ & M2 & M3 & M4 & _). fold sh in M2, M3, M4. unfold quiet, s1. fs. rewrite V3, M2, M3, M4. intros H; exact H. }
+    apply (mt_to_mcall_post em payload s s1 s' x' offered capn segs consumed); try assumption.
     rewrite Est. discriminate.
   Qed.
 
   Lemma meta_call_head : sstate_ s = SMetaHead -> rem_meta s = 0 -> offered = 0 ->
-    exists segs consumed, call_post (input_pos s) em s s' (produced x') segs consumed.
+    exists segs consumed, mcall_post em s s' (produced x') segs consumed.
   Proof.
     intros Est Hb1 Ho0. destruct (hint_fields s 0) as (V1 & V2 & V3 & V4). destruct (update_size_hint_oracle s 0) as [U1 U2].
     destruct (hint_more s 0) as (M1 & _). fold sh in V1, V2, V3, V4, U1, U2, M1.
@@ -194,14 +220,15 @@ Section MetaCall.
     assert (A5 : sstate_ sh = SMetaHead) by (rewrite V4; exact Est).
     destruct (meta_head payload fuel sh (io0 offered capn) s' x' em Hih A1 A2 A3 A5 A4 eq_refl Hoff H24 Hby Hrun Hai) as (segs & consumed & T).
     exists segs, consumed.
-    apply (mt_to_call_post em payload s sh s' x' offered capn segs consumed Hini Hfc); try assumption.
+    apply (mt_to_mcall_post em payload s sh s' x' offered capn segs consumed); try assumption.
     - rewrite Est. discriminate.
     - apply same_cfg_hint.
     - intros e. apply wire_size_hint.
+    - destruct (hint_more s 0) as (_ & M2 & M3 & M4 & _). fold sh in M2, M3, M4. unfold quiet. rewrite V3, M2, M3, M4. intros H; exact H.
   Qed.
 
   Lemma meta_call_body : sstate_ s = SMetaBody -> rem_meta s = 0 -> last_bytes s = 0 -> last_bytes_bits s = 0 -> quiet s -> offered = 0 ->
-    exists segs consumed, call_post (input_pos s) em s s' (produced x') segs consumed.
+    exists segs consumed, mcall_post em s s' (produced x') segs consumed.
   Proof.
     intros Est B1 B2 B3 B4 Ho0. destruct (hint_fields s 0) as (V1 & V2 & V3 & V4). destruct (update_size_hint_oracle s 0) as [U1 U2].
     destruct (hint_more s 0) as (M1 & M2 & M3 & M4 & M5). fold sh in V1, V2, V3, V4, U1, U2, M1, M2, M3, M4, M5.
@@ -224,25 +251,25 @@ Section MetaCall.
     + intros _. rewrite W. cbn [produced io0 in_off]. rewrite Ep. unfold skipN. cbn [N.to_nat skipn bytes_bits flat_map segs_bits].
       rewrite !app_nil_r. apply wire_size_hint.
     + constructor.
-    + intros Hf. destruct He as [[E _]|[E _]]; rewrite E in Hf; discriminate Hf.
-    + intros _. split; [apply Forall_nil|rewrite Est; discriminate].
+    + constructor.
+    + split; [rewrite Est; discriminate|]. destruct He as [[E _]|[E _]]; rewrite E; discriminate.
     + split; [exact Hi'|]. rewrite O, U1. split; [exact Hok|]. split; [exact Htc|]. unfold clean. rewrite L1, L2. exact cleanv_00.
     + rewrite Hp', V3. reflexivity.
-    + pose proof (same_cfg_trans _ _ _ (same_cfg_hint s 0) Hc') as Cf. split; [destruct Cf as [C1 _]; rewrite C1; exact Hini|].
-      rewrite (same_cfg_fastcond _ _ Cf). exact Hfc.
+    + exact (same_cfg_trans _ _ _ (same_cfg_hint s 0) Hc').
     + destruct He as [[A B]|[A B]]; split; intros H; rewrite A in H; try discriminate H.
       repeat split; assumption.
+    + intros _. split; [reflexivity|exact Hq'].
   Qed.
 End MetaCall.
 
-Lemma meta_call_post s payload offered capn s' x' em :
-  initialized s = true -> fastcond s = false ->
+Lemma meta_call_mpost s payload offered capn s' x' em :
+  initialized s = true ->
   inv s -> all_ok2 (oracle s) -> Forall tclean (oracle s) -> clean s -> bstate_ok s ->
   offered = lenN payload -> Forall (fun b => b < 256) payload ->
   compress_stream s OpMeta payload offered capn = Done (true, s', x') -> avail_in x' = 0 ->
-  exists segs consumed, call_post (input_pos s) em s s' (produced x') segs consumed.
+  exists segs consumed, mcall_post em s s' (produced x') segs consumed.
 Proof.
-  intros Hini Hfc Hi Hok Htc Hcl [Hb1 Hb2] Hoff Hby Hrun Hai.
+  intros Hini Hi Hok Htc Hcl [Hb1 Hb2] Hoff Hby Hrun Hai.
   destruct (meta_call_unfold s payload offered capn s' x' Hini Hrun) as (Cg & H24 & fuel & Hpm).
   destruct (sstate_ s) eqn:Est.
   - eapply meta_call_new; eassumption.
@@ -256,4 +283,16 @@ Proof.
   - destruct (Hb2 eq_refl) as (B1 & B2 & B3 & B4). rewrite B1 in Cg. cbn [N.eqb U32MAX negb andb] in Cg.
     apply negb_false_iff in Cg. apply N.eqb_eq in Cg.
     eapply meta_call_body; eassumption.
+Qed.
+
+Lemma meta_call_post s payload offered capn s' x' em :
+  initialized s = true -> fastcond s = false ->
+  inv s -> all_ok2 (oracle s) -> Forall tclean (oracle s) -> clean s -> bstate_ok s ->
+  offered = lenN payload -> Forall (fun b => b < 256) payload ->
+  compress_stream s OpMeta payload offered capn = Done (true, s', x') -> avail_in x' = 0 ->
+  exists segs consumed, call_post (input_pos s) em s s' (produced x') segs consumed.
+Proof.
+  intros Hini Hfc Hi Hok Htc Hcl Hb Hoff Hby Hrun Hai.
+  destruct (meta_call_mpost s payload offered capn s' x' em Hini Hi Hok Htc Hcl Hb Hoff Hby Hrun Hai) as (segs & consumed & T).
+  exists segs, consumed. apply mcall_to_call_post; assumption.
 Qed.
